@@ -177,6 +177,23 @@ def run_shard(args):
         state["final"] = (case, res)
         return True
 
+    # ---- saved reproductions of listed known findings: re-run on every check (shard 0) ---------------------------
+    if shard == 0:
+        import glob
+        for path in sorted(glob.glob(os.path.join(core.VERIF_DIR, "known_replays", f"{prop.ID}-*.json"))):
+            case = json.load(open(path))["case"]
+            res = evaluate(prop, case, timeout_s)
+            stats.record(case, res)
+            if res.fail is not None:
+                k = findings.match(known, prop.ID, res.fail)
+                if k is not None:
+                    stats.excluded_known[k.text] += 1
+                else:
+                    stats.violations.append({"case": case, "fail": res.fail.to_json(), "shrunk": False})
+                    excluded.add(bucket_of(res.fail))
+            else:
+                stats.labels[f"known_finding_no_longer_reproduces:{os.path.basename(path)}"] += 1
+
     # ---- enumerated cases (finite domains), sharded by index -------------------------------------------------
     if hasattr(prop, "enumerate_cases"):
         state = {"phase": "generate", "target": None, "failing": set(), "final": None, "shrinks": 0}
